@@ -88,6 +88,10 @@ func nextPacket(r io.Reader) (*parser.Packet, error) {
 			expectedLen = int(binary.BigEndian.Uint32(header[:]))
 			state = ReadPayload
 		case ReadPayload:
+			// Check the declared length against the limit before anything is allocated for it.
+			if lr, ok := r.(*limitedReader); ok && lr.limit > 0 && int64(expectedLen) > lr.limit {
+				return nil, ErrLimitReached
+			}
 			return parser.DecodeWithLen(r, isBinary, expectedLen)
 		}
 	}
